@@ -34,6 +34,10 @@ def non_test_end(lines):
     return len(lines)
 
 
+SWAPS = [("holder", "counterparty"), ("counterparty", "holder"), ("local", "remote"), ("remote", "local"),
+         ("offered", "received"), ("received", "offered"), ("min", "max"), ("max", "min"),
+         ("commit_num", "revoke_num"), ("revoke_num", "commit_num"), ("broadcaster", "countersigner"),
+         ("countersigner", "broadcaster")]
 CMP = [(" >= ", " > "), (" <= ", " < "), (" > ", " >= "), (" < ", " <= "), (" == ", " != "), (" != ", " == ")]
 
 
@@ -64,6 +68,19 @@ def mutants(path, ops):
             out.append(("flag", i, nl, "flag flipped"))
         if "try" in ops and re.match(r"^\s*[A-Za-z_][\w\.\(\)&:, \*]*\)\?;\s*$", l) and "let " not in l and "=" not in l:
             out.append(("try", i, re.sub(r"^(\s*)(.*)\?;\s*$", r"\1let _ = \2;", l), "error ignored"))
+        if "swap" in ops and not re.match(r"^\s*(pub |fn |let |//|#)", l):
+            # role swap on a field / method access: `.holder_x` <-> `.counterparty_x`, local/remote, offered/received, min/max
+            for a, b in SWAPS:
+                for m in re.finditer(r"\.((?:\w*_)?)" + a + r"((?:_\w*)?)\b", l):
+                    new_ident = "." + m.group(1) + b + m.group(2)
+                    out.append(("swap", i, l[:m.start()] + new_ident + l[m.end():], f"role swapped: {m.group(0)} -> {new_ident}"))
+        if "del" in ops and re.match(r"^\s*[A-Za-z_][\w\.\(\)&:, \*\[\]\+\-]*\)\?;\s*$", l) and "let " not in l and " = " not in l:
+            out.append(("del", i, "", "guard call deleted"))
+        if "del" in ops and re.match(r"^\s*(self|state|estate|enforcement_state)\.[\w\.]+ = [^;]+;\s*$", l):
+            out.append(("del", i, "", "state update deleted"))
+        if "move" in ops and i + 1 < end and re.match(r"^\s*[A-Za-z_][\w\.\(\)&:, \*\[\]\+\-]*\)\?;\s*$", l) and "let " not in l \
+           and re.match(r"^\s*[A-Za-z_][^{}]*;\s*$", src[i + 1]) and "let " not in src[i + 1] and "return" not in src[i + 1]:
+            out.append(("move", i, src[i + 1] + "\n" + l, "guard moved after the next statement"))
         if "persist" in ops and re.match(r"^\s*self\.persist\(\)\?;\s*$", l):
             out.append(("persist", i, "", "persist call deleted"))
     return src, out
@@ -102,8 +119,11 @@ def main():
         for k, (op, i, newline, what) in enumerate(ms):
             t0 = time.time()
             new = list(src)
-            if op == "persist":
+            if op in ("persist", "del"):
                 del new[i]
+            elif op == "move":
+                new[i] = newline
+                del new[i + 1]
             else:
                 new[i] = newline
             try:
